@@ -37,7 +37,7 @@ TEXT.update({
     "C02": ("Bounded model checking of the real compile_into, one AST node at a time: the emitted instruction schema, its net operand-stack "
             "effect for keep_result both ways (the discard path the suite never takes), constant-pool references of the right kind, in "
             "three frame kinds, for every literal value and variable name assignment. The arms with several children are decided on the MIR of "
-            "compile_into (shape of the AST concrete, literals and keep_result symbolic): 47 templates x 4 contexts, each path's program checked for "
+            "compile_into (shape of the AST concrete, literals and keep_result symbolic): 50 templates x 4 contexts, each path's program checked for "
             "references, kinds, labels, method ranges, frame sizes and one operand-stack depth per instruction; the executor's output is compared "
             "with the natively compiled program on every run.",
             "5C (C02)", "Kani/CBMC over compile_into per AST arm + MIR/z3 symbolic execution of the whole compiler on AST templates"),
@@ -68,7 +68,7 @@ TEXT.update({
             "5C (C12)", "Kani/CBMC scope-operation sequences vs a reference resolver + MIR/z3 compiler scope templates"),
     "C13": ("VM side by bounded model checking: operands are popped exactly once and in the pushed order (branch, array, set slot), the value of "
             "a let / assignment is compiled before the store; argument order of function / method calls and member order of object creation are "
-            "decided on the kernels' MIR with z3. Compiler side: compile_into is executed on its MIR for 47 templates whose operand positions hold "
+            "decided on the kernels' MIR with z3. Compiler side: compile_into is executed on its MIR for 50 templates whose operand positions hold "
             "self-identifying calls; the trace of the emitted code on a reference stack machine must equal the trace the README's semantics "
             "prescribe (left to right, initializer per element, taken branch only, loop condition once more at exit) for the listed run-time choices.",
             "5C (C13)", "Kani/CBMC VM-side operand order + MIR/z3 call / object kernels + MIR/z3 compiler templates against a reference evaluator"),
